@@ -16,8 +16,6 @@ THEOREMS = [
     "clusterMove_weight_ising",
     "clusterMove_symm",
     "clusterMove_consistent",
-    "clusterMove_boundary_state",
-    "clusterMove_refl",
     "clusterMove_tags",
     "clusterFlips_spec",
     "clusterFlips_half",
